@@ -130,7 +130,16 @@ func (tx *Tx) Rollback() error {
 		}
 	}
 
+	defer tx.restoreAutoCommit()
 	return tx.target.Rollback()
+}
+
+// restoreAutoCommit marks the connection as being back in autocommit mode: the local transaction has
+// ended, and a pinned connection is not reset by database/sql before its next statement
+func (tx *Tx) restoreAutoCommit() {
+	if tx.conn != nil {
+		tx.conn.autoCommit = true
+	}
 }
 
 // init
@@ -140,6 +149,7 @@ func (tx *Tx) init() error {
 
 // commitOnLocal
 func (tx *Tx) commitOnLocal() error {
+	defer tx.restoreAutoCommit()
 	return tx.target.Commit()
 }
 
